@@ -372,5 +372,86 @@ theorem merge_excused (loc shared : Chain) : PMergeExc loc shared (mergeChain lo
     | some sv =>
       by_cases he : v.isEmpty = true <;> simp [he]
 
+/-! #### string settings; numeric settings written as strings -/
+
+/-- **Strings.** For every string setting and EVERY byte string written (any `=`, `:`, `,`, quotes, `#`, blanks at either
+    end, any length), loading fails or yields exactly that string; only the empty string is replaced, by the declared default. -/
+theorem str_property (f : SField) (v : Bytes) : PStr f v (loadStr f v) = true := by
+  unfold loadStr PStr
+  by_cases h : v = []
+  · subst h; cases hr : f.required <;> simp
+  · simp [h]
+
+example : loadStr .enckey [81, 61, 61] = some [81, 61, 61] ∧ loadStr .enckey [] = none ∧
+    loadStr .logfile [] = some SField.logfile.dflt ∧ loadStr .key [32, 61, 32] = some [32, 61, 32] := by decide
+
+/-- **Numeric strings.** A fee amount written as text loads as its decimal value or not at all, and a typed numeric
+    setting written as a string never loads: no octal / hex / binary reinterpretation of what was written. -/
+theorem numstr_property (s : Bytes) : PNumStr s (loadFee s) = true ∧ PNumStr s (loadTypedFromString s) = true := by
+  unfold PNumStr loadFee loadTypedFromString
+  cases decimalReading s <;> simp
+
+/-- `0100000` is one hundred thousand (not 32768), `010` is ten, `0x10` / `1_000` / `1e3` / ` 5` are rejected -/
+example : loadFee [48, 49, 48, 48, 48, 48, 48] = some 100000 ∧ loadFee [48, 49, 48] = some 10 ∧
+    loadFee [48, 120, 49, 48] = none ∧ loadFee [49, 95, 48, 48, 48] = none ∧ loadFee [49, 101, 51] = none ∧
+    loadFee [32, 53] = none ∧ loadFee [43, 53] = some 5 ∧ loadFee [45, 53] = some (-5) ∧ loadFee [] = none ∧
+    PNumStr [48, 49, 48] (some 8) = false := by decide
+
+/-! #### port texts (base-0 parsing as coded) -/
+
+theorem digitLoop_digits (s : Bytes) (acc : Nat) (h : ∀ c ∈ s, 48 ≤ c.toNat ∧ c.toNat ≤ 57) :
+    digitLoop 10 acc false s =
+      (s.foldl (fun a c => a.bind fun a => if 48 ≤ c.toNat ∧ c.toNat ≤ 57 then some (a * 10 + (c.toNat - 48)) else none)
+        (some acc)).map fun v => (v, false) := by
+  induction s generalizing acc with
+  | nil => rfl
+  | cons c cs ih =>
+    have hc := h c (List.mem_cons_self ..)
+    have hne : c ≠ 95 := by intro e; subst e; simp at hc
+    have hd : digitOf c = some (c.toNat - 48) := by simp [digitOf, hc]
+    have hlt : c.toNat - 48 < 10 := by omega
+    simp only [digitLoop, hne, if_false, hd, hlt, if_true, List.foldl_cons, Option.bind_some, hc, and_self]
+    exact ih _ (fun x hx => h x (List.mem_cons_of_mem _ hx))
+
+/-- **Port texts, plain decimals.** For every text made of digits only that does not start with `0` (what a port
+    normally looks like), base-0 parsing yields exactly its decimal reading or fails (out of range): `PPortText` holds. -/
+theorem port_text_plain (c : UInt8) (r : Bytes) (hc : 49 ≤ c.toNat ∧ c.toNat ≤ 57)
+    (hr : ∀ x ∈ r, 48 ≤ x.toNat ∧ x.toNat ≤ 57) : PPortText (c :: r) (portText (c :: r)) = true := by
+  have hall : ∀ x ∈ c :: r, 48 ≤ x.toNat ∧ x.toNat ≤ 57 := by
+    intro x hx
+    rcases List.mem_cons.1 hx with rfl | hx
+    · omega
+    · exact hr x hx
+  have hne : c ≠ 48 := by intro e; subst e; simp at hc
+  have hbase : parseUintBase0 16 (c :: r) =
+      match digitLoop 10 0 false (c :: r) with
+      | none => none
+      | some (v, us) => if us && !underscoreOK (c :: r) then none else if v < 2 ^ 16 then some v else none := by
+    unfold parseUintBase0
+    simp only [List.cons_ne_nil, if_false]
+    split <;> simp_all
+  unfold portText PPortText
+  rw [hbase, digitLoop_digits (c :: r) 0 hall]
+  unfold decDigits
+  simp only [List.cons_ne_nil, if_false]
+  cases hf : List.foldl (fun a c => a.bind fun a => if 48 ≤ c.toNat ∧ c.toNat ≤ 57 then some (a * 10 + (c.toNat - 48)) else none)
+      (some 0) (c :: r) with
+  | none => simp
+  | some v =>
+    simp only [Option.map_some, Bool.false_and, Bool.false_eq_true, if_false]
+    by_cases hv : v < 2 ^ 16
+    · simp only [hv, if_true, Option.map_some]
+      have : v % 65536 = v := Nat.mod_eq_of_lt (by simpa using hv)
+      simp [this]; omega
+    · simp [hv]
+
+/-- the KNOWN base-0 point (findings: C20-port-base0): `010` loads as port 8, `0x50` as 80, `1_000` as 1000, `0b11` as 3 —
+    values that are not the decimal reading of what was written; `08080` and `0x` fail, `007` happens to be 7 -/
+theorem port_base0_point :
+    portText [48, 49, 48] = some 8 ∧ PPortText [48, 49, 48] (portText [48, 49, 48]) = false ∧
+    portText [48, 120, 53, 48] = some 80 ∧ portText [49, 95, 48, 48, 48] = some 1000 ∧ portText [48, 98, 49, 49] = some 3 ∧
+    portText [48, 56, 48, 56, 48] = none ∧ portText [48, 120] = none ∧ portText [48, 48, 55] = some 7 ∧
+    portText [49, 95, 95, 48] = none ∧ portText [56, 48, 56, 48] = some 8080 := by decide
+
 end Property
 end Sygma.C20
